@@ -14,10 +14,11 @@ import CircuitModel.DriverCloser
 import CircuitModel.DriverMerge
 import CircuitModel.DriverManager
 import CircuitModel.DriverConsumers
+import CircuitModel.DriverGoWrap
 open CM
 
 def suites : List (String × (List (String × String) → List (String × String) → List String)) :=
-  [("rc", suiteRC), ("tc", suiteTC), ("rp", suiteRP), ("sd", suiteSD), ("circuit", suiteCircuit), ("opener", suiteOpener), ("closer", suiteCloser), ("merge", suiteMerge), ("manager", suiteManager), ("consumers", suiteConsumers)]
+  [("rc", suiteRC), ("tc", suiteTC), ("rp", suiteRP), ("sd", suiteSD), ("circuit", suiteCircuit), ("opener", suiteOpener), ("closer", suiteCloser), ("merge", suiteMerge), ("manager", suiteManager), ("consumers", suiteConsumers), ("gowrap", suiteGoWrap)]
 
 partial def readAll (h : IO.FS.Stream) (acc : Array String) : IO (Array String) := do
   let line ← h.getLine
